@@ -575,6 +575,10 @@ class Generator:
             cur = off + dl
         res.append(sf.text[cur:toks[last].end])
         body = "".join(res)
+        if has_body and loops_meta:
+            # facts established before a loop stay visible inside it: a local hoisted out of a loop condition
+            # (let n = v.len(); while i < n ..) must not break a proof
+            body = "#[verifier::loop_isolation(false)]\n" + body
         rk, wrapped = self._region(u, "fn", fid, "", body)
         calls = []
         if has_body:
